@@ -5,7 +5,7 @@ PROP = "C20"
 LEVEL = "proof"
 H = "vf.contracts.c_legacy."
 FUNCTIONS = ["a816.cpu.cpu_65c816.rom_to_snes", "a816.cpu.cpu_65c816.snes_to_rom", "script.formulas.long_low_rom_pointer",
-             "script.formulas.base_relative_16bits_pointer_formula"]
+             "script.formulas.base_relative_16bits_pointer_formula", "a816.symbols.Resolver.set_position", "a816.symbols.Resolver.get_bus"]
 MIN_OBLIGATIONS = 12
 EXPLANATION = ("Harnesses in vf/contracts/c_legacy.py run the real rom_to_snes / snes_to_rom / pointer closures on a symbolic offset "
                "(every offset of the 4 MiB space, every (base, pointer) pair) and compare with the textbook address formula, the live "
@@ -25,8 +25,22 @@ def shape(mode):
 def cases(E):
     cs = [Case(H + "rom_to_snes_contract", f"mode={m}", shape(m), target=FUNCTIONS[:2]) for m in ("low_rom", "low_rom_2", "high_rom")]
     cs.append(Case(H + "long_low_rom_pointer_contract", "any base,p", lambda B: {"base": B.int("base"), "p": B.int("p")}, target=FUNCTIONS[2:3]))
-    cs.append(Case(H + "base_relative_contract", "any base,v", lambda B: {"base": B.int("base"), "v": B.symbytes("v", 2)}, target=FUNCTIONS[3:]))
+    cs.append(Case(H + "base_relative_contract", "any base,v", lambda B: {"base": B.int("base"), "v": B.symbytes("v", 2)}, target=FUNCTIONS[3:4]))
+    # "the address mapping the assembler uses" is reached through Resolver.set_position: the write position it sets for a mapped address IS
+    # Address.physical (also for file offset 0), so agreeing with the Bus means agreeing with where the assembler writes (C03's contract)
+    from vf.props import C03 as c03
+    cs += c03.set_position_cases(E)
     return cs
+
+
+def setup_engine(E):
+    from vf.props import C03 as c03
+    if hasattr(c03, "setup_engine"):
+        c03.setup_engine(E)
+
+
+from vf.props.C03 import OPTIONAL_CHECKS as _C03_OPT  # noqa: E402
+OPTIONAL_CHECKS = {"set_position_contract": _C03_OPT["set_position_contract"]}
 
 
 def bounded(tier, seed):
